@@ -6,7 +6,7 @@
  "mode": "harness",
  "replace_calls": {"expr": "stub_expr"}, "replay": false,
  "link_repo": ["type.c"],
- "unwindset": ["postfixexpr.0:3", "mkbinaryexpr:3", "mkunaryexpr:3", "decay:3", "strip.0:3"],
+ "unwind": 3,
  "kind": "proof-const-unwind",
  "timeout": 200,
  "expects": ["assertion_verif"],
